@@ -1312,7 +1312,10 @@ ORDER_BEARING = [REGION, 'grammar::TypeStatement', 'semantic::function::Function
                  'grammar::Backend', 'grammar::ItemPath', 'semantic::types::ExternValue', 'grammar::ItemDefinition', 'grammar::ExternValue',
                  # field paths of the hierarchy walk and of the AsRef / AsMut bodies, (path, type) pairs
                  "std::slice::Iter<'_, std::string::String>", "std::slice::Iter<'_, &str>", "std::slice::Iter<'_, proc_macro2::Ident>",
-                 "std::slice::Iter<'_, (std::vec::Vec<proc_macro2::Ident>, syn::Type)>", "std::slice::Iter<'_, (std::vec::Vec<std::string::String>, semantic::types::Type)>"]
+                 "std::slice::Iter<'_, (std::vec::Vec<proc_macro2::Ident>, syn::Type)>", "std::slice::Iter<'_, (std::vec::Vec<std::string::String>, semantic::types::Type)>",
+                 # the same sequences consumed by value
+                 'std::vec::IntoIter<std::string::String>', 'std::vec::IntoIter<proc_macro2::Ident>',
+                 'std::vec::IntoIter<(std::vec::Vec<std::string::String>, semantic::types::Type)>', 'std::vec::IntoIter<(std::vec::Vec<proc_macro2::Ident>, syn::Type)>']
 ORDER_CHANGING = re.compile(r'(slice::<impl \[T\]>::(sort\w*|reverse|swap|rotate_\w+|select_nth\w*)|Vec::<T, A>::(insert|remove|retain\w*|dedup\w*|drain|swap_remove|pop|truncate|split_off|clear)|'
                             r'Iterator::(rev|skip|take|step_by|skip_while|take_while|map_while|scan|fuse|cycle)|DoubleEndedIterator::\w+|Iterator::(last|max\w*|min\w*))$')
 # reviewed order-changing calls: (function, callee fragment, element type fragment) -> reason
@@ -1333,6 +1336,8 @@ SEQ_PROPS = {
     "std::slice::Iter<'_, std::string::String>": ['C07', 'C13'], "std::slice::Iter<'_, &str>": ['C07', 'C13'], "std::slice::Iter<'_, proc_macro2::Ident>": ['C07', 'C13'],
     "std::slice::Iter<'_, (std::vec::Vec<proc_macro2::Ident>, syn::Type)>": ['C07', 'C13'],
     "std::slice::Iter<'_, (std::vec::Vec<std::string::String>, semantic::types::Type)>": ['C07', 'C13'],
+    'std::vec::IntoIter<std::string::String>': ['C07', 'C13'], 'std::vec::IntoIter<proc_macro2::Ident>': ['C07', 'C13'],
+    'std::vec::IntoIter<(std::vec::Vec<std::string::String>, semantic::types::Type)>': ['C07', 'C13'], 'std::vec::IntoIter<(std::vec::Vec<proc_macro2::Ident>, syn::Type)>': ['C07', 'C13'],
 }
 
 
